@@ -129,10 +129,19 @@ impl TDigest {
 
             if proposed_weight <= k_limit {
                 // Merge centroid into current
-                current.mean = current
+                let merged = current
                     .mean
                     .mul_add(current.weight, centroid.mean * centroid.weight)
                     / proposed_weight;
+                current.mean = if merged.is_finite() {
+                    merged
+                } else {
+                    // The weighted sum overflowed (values near f64::MAX): average without
+                    // forming it. A convex combination of finite means stays in [min, max].
+                    (current.mean * (current.weight / proposed_weight)
+                        + centroid.mean * (centroid.weight / proposed_weight))
+                        .clamp(self.min, self.max)
+                };
                 current.weight = proposed_weight;
             } else {
                 // Push current and start a new one
@@ -220,9 +229,15 @@ impl TDigest {
                     self.centroids[i + 1].mean
                 };
 
-                // Rounding (or an overflowing `right - left`) must not push the estimate
-                // outside the observed range.
-                return (left + fraction * (right - left)).clamp(self.min, self.max);
+                // Rounding must not push the estimate outside the observed range, and an
+                // overflowing `right - left` (values near f64::MAX) must not produce inf/NaN.
+                let span = right - left;
+                let estimate = if span.is_finite() {
+                    left + fraction * span
+                } else {
+                    left * (1.0 - fraction) + right * fraction
+                };
+                return estimate.clamp(self.min, self.max);
             }
 
             cumulative = next_cumulative;
